@@ -11,8 +11,17 @@ use anyhow::{Context, Result};
 use ragc_common::{Archive, CollectionV3, Contig, CONTIG_SEPARATOR};
 use std::collections::{BTreeMap, HashMap, HashSet};
 use std::path::Path;
+#[cfg(ragc_verif)]
+use crate::verif_sync::atomic::{AtomicI32, AtomicU32, AtomicUsize, Ordering};
+#[cfg(ragc_verif)]
+use crate::verif_sync::thread::{self, JoinHandle};
+#[cfg(ragc_verif)]
+use crate::verif_sync::{Arc, Mutex, RwLock};
+#[cfg(not(ragc_verif))]
 use std::sync::atomic::{AtomicI32, AtomicU32, AtomicUsize, Ordering};
+#[cfg(not(ragc_verif))]
 use std::sync::{Arc, Mutex, RwLock};
+#[cfg(not(ragc_verif))]
 use std::thread::{self, JoinHandle};
 
 /// MurmurHash64A implementation matching C++ AGC's MurMur64Hash
@@ -969,6 +978,9 @@ const NO_RAW_GROUPS: u32 = 16;
 pub struct StreamingQueueCompressor {
     queue: Arc<MemoryBoundedQueue<ContigTask>>,
     workers: Vec<JoinHandle<Result<()>>>,
+    #[cfg(ragc_verif)]
+    barrier: Arc<crate::verif_sync::Barrier>,
+    #[cfg(not(ragc_verif))]
     barrier: Arc<std::sync::Barrier>, // Synchronization barrier for batch boundaries (matches C++ AGC bar.arrive_and_wait())
     collection: Arc<Mutex<CollectionV3>>,
     splitters: Arc<AHashSet<u64>>,
@@ -1244,6 +1256,9 @@ impl StreamingQueueCompressor {
 
         // Initialize barrier for sample boundary synchronization (matches C++ AGC barrier)
         // All workers must synchronize at sample boundaries to ensure batch flush completes before processing new samples
+        #[cfg(ragc_verif)]
+        let barrier = Arc::new(crate::verif_sync::Barrier::new(config.num_threads));
+        #[cfg(not(ragc_verif))]
         let barrier = Arc::new(std::sync::Barrier::new(config.num_threads));
 
         // Parallel Phase 3 state for atomic work-stealing (matches C++ AGC architecture)
@@ -1746,6 +1761,9 @@ impl StreamingQueueCompressor {
         // Wait for queue to empty
         // Poll every 100ms until queue is empty
         while self.queue.len() > 0 {
+            #[cfg(ragc_verif)]
+            crate::verif_sync::thread::sleep(std::time::Duration::from_millis(100));
+            #[cfg(not(ragc_verif))]
             std::thread::sleep(std::time::Duration::from_millis(100));
         }
 
@@ -1780,6 +1798,9 @@ impl StreamingQueueCompressor {
 
         // Wait for sync tokens to be processed (queue empty)
         while self.queue.len() > 0 {
+            #[cfg(ragc_verif)]
+            crate::verif_sync::thread::sleep(std::time::Duration::from_millis(10));
+            #[cfg(not(ragc_verif))]
             std::thread::sleep(std::time::Duration::from_millis(10));
         }
 
@@ -4125,6 +4146,24 @@ fn classify_raw_segments_at_barrier(
 
     // Sort for determinism: by sample_name, contig_name, original_place
     raw_segs.sort();
+    #[cfg(ragc_verif)]
+    {
+        // Batch composition record: FNV-1a digest of the sorted (sample, contig, place) list.
+        let mut h: u64 = 0xcbf29ce484222325;
+        for seg in raw_segs.iter() {
+            for b in seg
+                .sample_name
+                .bytes()
+                .chain([0u8])
+                .chain(seg.contig_name.bytes())
+                .chain([0u8])
+                .chain((seg.original_place as u64).to_le_bytes())
+            {
+                h = (h ^ b as u64).wrapping_mul(0x100000001b3);
+            }
+        }
+        ragc_common::verif::event("batch", raw_segs.len() as u64, h, 0);
+    }
 
     // Group segments by (sample, contig) for parallel processing
     // Each contig's segments will be processed sequentially for determinism,
@@ -5011,6 +5050,8 @@ fn worker_thread(
     buffered_seg_part: Arc<BufferedSegPart>, // Per-group buffers for parallel Phase 1
     map_fallback_minimizers: Arc<Mutex<BTreeMap<u64, Vec<(u64, u64)>>>>,
     raw_segment_buffers: Arc<Vec<Mutex<Vec<RawBufferedSegment>>>>, // Per-worker buffers for deferred classification
+    #[cfg(ragc_verif)] barrier: Arc<crate::verif_sync::Barrier>,
+    #[cfg(not(ragc_verif))]
     barrier: Arc<std::sync::Barrier>, // Synchronization barrier for batch boundaries
     parallel_state: Arc<ParallelFlushState>, // Shared state for parallel Phase 3
     write_buffer: Arc<ParallelWriteBuffer>, // Per-stream buffers for parallel writes
@@ -5067,6 +5108,8 @@ fn worker_thread(
                     worker_id, processed_count
                 );
             }
+            #[cfg(ragc_verif)]
+            ragc_common::verif::event("w_exit", worker_id as u64, contig_count as u64, sync_count as u64);
             break;
         };
 
@@ -5077,6 +5120,8 @@ fn worker_thread(
         if task.is_sync_token {
             let sync_start = std::time::Instant::now();
             sync_count += 1;
+            #[cfg(ragc_verif)]
+            ragc_common::verif::event("w_token", worker_id as u64, sync_count as u64, 0);
             if config.verbosity > 0 {
                 eprintln!(
                     "Worker {} hit sync token for sample {}",
@@ -5090,7 +5135,11 @@ fn worker_thread(
 
             // Barrier 1: All workers arrive at sample boundary
             let barrier_start = std::time::Instant::now();
+            #[cfg(ragc_verif)]
+            ragc_common::verif::event("w_bar_arrive", worker_id as u64, 1, sync_count as u64);
             barrier.wait();
+            #[cfg(ragc_verif)]
+            ragc_common::verif::event("w_bar_leave", worker_id as u64, 1, sync_count as u64);
             total_barrier_wait += barrier_start.elapsed();
 
             // Phase 2 (Thread 0 only): Classify raw segments and prepare batch
@@ -5153,7 +5202,11 @@ fn worker_thread(
 
             // Barrier 2: All workers see prepared buffers
             let barrier_start = std::time::Instant::now();
+            #[cfg(ragc_verif)]
+            ragc_common::verif::event("w_bar_arrive", worker_id as u64, 2, sync_count as u64);
             barrier.wait();
+            #[cfg(ragc_verif)]
+            ragc_common::verif::event("w_bar_leave", worker_id as u64, 2, sync_count as u64);
             total_barrier_wait += barrier_start.elapsed();
 
             let compress_start = std::time::Instant::now();
@@ -5197,7 +5250,11 @@ fn worker_thread(
 
             // Barrier 3: All workers done with compression and buffering
             let barrier_start = std::time::Instant::now();
+            #[cfg(ragc_verif)]
+            ragc_common::verif::event("w_bar_arrive", worker_id as u64, 3, sync_count as u64);
             barrier.wait();
+            #[cfg(ragc_verif)]
+            ragc_common::verif::event("w_bar_leave", worker_id as u64, 3, sync_count as u64);
             total_barrier_wait += barrier_start.elapsed();
 
             if worker_id == 0 && config.verbosity > 0 {
@@ -5271,7 +5328,11 @@ fn worker_thread(
 
             // Barrier 4: All workers ready for next batch (reduced from 2 barriers)
             let barrier_start = std::time::Instant::now();
+            #[cfg(ragc_verif)]
+            ragc_common::verif::event("w_bar_arrive", worker_id as u64, 4, sync_count as u64);
             barrier.wait();
+            #[cfg(ragc_verif)]
+            ragc_common::verif::event("w_bar_leave", worker_id as u64, 4, sync_count as u64);
             total_barrier_wait += barrier_start.elapsed();
 
             // Track total sync token processing time
@@ -5284,6 +5345,8 @@ fn worker_thread(
         // Start timing for segment processing
         let segment_start = std::time::Instant::now();
         contig_count += 1;
+        #[cfg(ragc_verif)]
+        ragc_common::verif::event("w_contig", worker_id as u64, task.sequence, task.data.len() as u64);
 
         // NOTE: Removed per-contig lock on batch_samples - not needed for deferred classification
         // The batch tracking is handled at the barrier level, not per-contig
